@@ -49,3 +49,27 @@ Definition run_c04_mint (i : (Z * Z * Z * Z * Z) * (Z * Z * Z) * (Z * Z * Z) * Z
 (* helpers::compute_swap. input: (ramp, (offer_pool, ask_pool, unswapped_pool, offer), (protocol, swap, burn)) *)
 Definition run_c04_cswap (i : (Z * Z * Z * Z * Z) * (Z * Z * Z * Z) * (Z * Z * Z)) : list Z :=
   match i with (t, (op, ask, uns, x), (p, s, b)) => obs_of swapc_obs (compute_swap3 (ramp5 t) op ask uns x (mkFees p s b)) end.
+
+(* ---- pool histories on the deployed trio ---------------------------------------------------------- *)
+From WW Require Export Stable3Pool.
+
+Definition pool_obs (p : pool) : list Z :=
+  list3 (p_bal p) ++ list3 (p_fee p) ++ list3 (p_all p) ++ list3 (p_burn p) ++ [p_supply p] ++ p_lp p ++ [p_lp_self p]
+  ++ cfg_obs (p_cfg p) ++ [p_height p].
+Definition eff_obs (r : outcome effects) : list Z :=
+  match r with Ok e => 0 :: list3 (e_user e) ++ list3 (e_coll e) | Err c => [1; c] | Panic => [2] end.
+
+Fixpoint run_pool_ops (p : pool) (l : list op) : list Z :=
+  match l with
+  | [] => []
+  | o :: l' => let '(p', r) := apply_op p o in eff_obs r ++ pool_obs p' ++ run_pool_ops p' l'
+  end.
+
+(* input: ((amp, height, (protocol, swap, burn), (cw20_0, cw20_1, cw20_2)), ops); four users *)
+Definition run_c04_pool (i : (Z * Z * (Z * Z * Z) * (bool * bool * bool)) * list op) : list Z :=
+  match i with ((amp, h, (pf, sf, bf), kinds), l) =>
+    match init_pool amp h (mkFees pf sf bf) kinds 4 with
+    | Ok p => 0 :: run_pool_ops p l
+    | Err c => [1; c]
+    | Panic => [2]
+    end end.
